@@ -8,9 +8,10 @@ use yasna::Tag;
 #[cfg(feature = "pem")]
 use crate::ENCODE_CONFIG;
 use crate::{
-	check_ia5, check_time, dt_strip_nanos, dt_to_generalized, oid, write_distinguished_name, write_dt_utc_or_generalized,
-	write_x509_authority_key_identifier, write_x509_extension, Certificate, Error, Issuer,
-	KeyIdMethod, KeyPair, KeyUsagePurpose, SerialNumber,
+	check_ia5, check_name, check_time, dt_strip_nanos, dt_to_generalized, oid,
+	write_distinguished_name, write_dt_utc_or_generalized, write_x509_authority_key_identifier,
+	write_x509_extension, Certificate, Error, Issuer, KeyIdMethod, KeyPair, KeyUsagePurpose,
+	SerialNumber,
 };
 
 /// A certificate revocation list (CRL)
@@ -221,6 +222,7 @@ impl CertificateRevocationListParams {
 	}
 
 	fn serialize_der(&self, issuer: Issuer) -> Result<Vec<u8>, Error> {
+		check_name(issuer.distinguished_name)?;
 		if let Some(issuing_distribution_point) = &self.issuing_distribution_point {
 			issuing_distribution_point
 				.distribution_point
